@@ -66,6 +66,25 @@ Definition king_sq p c := find (fun s => opiece_eqb (piece_at p s) (Some (King, 
 Definition checkers p c := match king_sq p c with Some k => attackers p (opp c) k | None => [] end.
 Definition in_check p c := match checkers p c with [] => false | _ => true end.
 
+(* squares strictly before t on a walk, when t lies on it *)
+Fixpoint prefix_before (t : square) (l : list square) : option (list square) :=
+  match l with [] => None | u :: r => if u =? t then Some [] else option_map (cons u) (prefix_before t r) end.
+(* a piece of colour c on u is pinned: it is the only occupied square strictly between its king and an enemy
+   slider that moves along that line *)
+Definition pin_line p (k u a : square) (d : Z * Z) : bool :=
+  match prefix_before k (line a d) with
+  | Some pre => mem u pre && forallb (fun v => (v =? u) || negb (occupied p v)) pre
+  | None => false end.
+Definition is_pinned (p : pos) (c : color) (u : square) : bool :=
+  match king_sq p c with
+  | None => false
+  | Some k => color_at p c u && existsb (fun a =>
+       match piece_at p a with
+       | Some (t, c') => color_eqb (opp c) c' && existsb (pin_line p k u a) (slide_dirs t)
+       | None => false end) squares
+  end.
+Definition is_checker (p : pos) (a : square) : bool := mem a (checkers p (stm p)).
+
 (* pseudo-legal destinations of the piece on s *)
 Definition pawn_dests p c s : list square :=
   let f := fwd c in
